@@ -31,16 +31,18 @@ const (
 
 // Loaded is the type-checked, SSA-built view of the repository's current working tree.
 type Loaded struct {
-	Repo     string
-	Fset     *token.FileSet
-	Pkgs     map[string]*packages.Package // by import path, module packages only
-	All      []*packages.Package
-	Prog     *ssa.Program
-	SSA      map[string]*ssa.Package
-	cg       *callgraph.Graph
-	Overlay  map[string][]byte
-	NonTest  map[*ssa.Function]bool // functions of module packages (no _test files are loaded)
-	loadWall float64
+	Repo    string
+	Fset    *token.FileSet
+	Pkgs    map[string]*packages.Package // by import path, module packages only
+	All     []*packages.Package
+	Prog    *ssa.Program
+	SSA     map[string]*ssa.Package
+	cg      *callgraph.Graph
+	Overlay map[string][]byte
+	// CanonNotes: what the alpha-normalisation of this load renamed (empty when the tree uses the baseline's names)
+	CanonNotes []string
+	NonTest    map[*ssa.Function]bool // functions of module packages (no _test files are loaded)
+	loadWall   float64
 }
 
 // Overlay spec: in-memory source variants used by the self-test (never touches the disk).
@@ -53,10 +55,11 @@ type overlaySpec struct {
 	// Clean lists properties whose checks must stay silent under this (behaviour-preserving) variant.
 	Clean []string `json:"clean"`
 	Edits []struct {
-		File string `json:"file"`
-		Old  string `json:"old"`
-		New  string `json:"new"`
-		All  bool   `json:"all"` // replace every occurrence (renames)
+		File  string `json:"file"`
+		Old   string `json:"old"`
+		New   string `json:"new"`
+		All   bool   `json:"all"`   // replace every occurrence (renames)
+		Whole bool   `json:"whole"` // New is the whole file
 	} `json:"edits"`
 	Note string `json:"note"`
 }
@@ -103,6 +106,10 @@ func readOverlay(path, repo string) (map[string][]byte, *overlaySpec, error) {
 	ov := map[string][]byte{}
 	for _, e := range spec.Edits {
 		full := filepath.Join(repo, e.File)
+		if e.Whole {
+			ov[full] = []byte(e.New)
+			continue
+		}
 		src, ok := ov[full]
 		if !ok {
 			src, err = os.ReadFile(full)
@@ -157,6 +164,7 @@ func testdataDirs(repo string) (golden []string, examples []string) {
 type loadOpts struct {
 	withTestdata bool
 	overlay      map[string][]byte
+	noCanon      bool // analyse the tree as it is (used for the baseline itself and for the second, alpha-normalised load)
 }
 
 func load(opts loadOpts) (*Loaded, error) {
@@ -204,6 +212,22 @@ func load(opts loadOpts) (*Loaded, error) {
 	}
 	if len(pkgs) == 0 {
 		return nil, fmt.Errorf("no packages loaded from %s", repo)
+	}
+	// alpha-normalisation (canon.go): identifiers that were only renamed are read under their baseline names
+	if !opts.noCanon && os.Getenv("KVERIF_NO_CANON") == "" {
+		if base := readBaseline(); base != nil {
+			if ren, notes := canonRenames(pkgs, fset, base); len(ren) > 0 {
+				ov, err := canonOverlay(pkgs, fset, ren, opts.overlay)
+				if err == nil {
+					L2, err2 := load(loadOpts{withTestdata: opts.withTestdata, overlay: ov, noCanon: true})
+					if err2 == nil {
+						L2.CanonNotes = append([]string{fmt.Sprintf("alpha-normalised: %d renamed objects read under their baseline names", len(ren))}, notes...)
+						return L2, nil
+					}
+					L.CanonNotes = []string{"alpha-normalisation abandoned (the renamed tree does not type-check): " + err2.Error()}
+				}
+			}
+		}
 	}
 	return L, nil
 }
